@@ -474,7 +474,7 @@ func (g *genState) chooseKind(file string) string {
 	return kinds[r.Intn(len(kinds))]
 }
 
-var readOnlyCmds = [][]string{{"print"}, {"total"}, {"total", "--now", "--decimal", "--no-style"}, {"json"}, {"json", "--now"}, {"today"}, {"report"}, {"tags"}}
+var readOnlyCmds = [][]string{{"print"}, {"total"}, {"total", "--now", "--decimal", "--no-style"}, {"today", "--now", "--decimal", "--no-style"}, {"json"}, {"json", "--now"}, {"today"}, {"report"}, {"tags"}}
 
 func (histEngine) generate(property string, seed int64, index int, tier string) *Scenario {
 	r := newRng(seed, "hist", property, fmt.Sprint(index))
@@ -759,7 +759,7 @@ func (g *genState) genC05Faults(op *Op, file string) {
 
 var c17Selections = []string{"", "today", "yesterday", "tomorrow", "explicit"}
 var c17Layouts = []string{"none", "today-open", "yesterday-open", "both-open", "today-closed+yesterday-open"}
-var c17Cmds = []string{"start", "stop", "switch", "json-now", "total-now"}
+var c17Cmds = []string{"start", "stop", "switch", "json-now", "total-now", "today-now"}
 var c17Roundings = []int{0, 5, 10, 12, 15, 20, 30, 60}
 
 func c17Cells() int {
@@ -875,6 +875,8 @@ func genC17(r *Rng, seed int64, index int, tier string) *Scenario {
 	var op Op
 	if c17Cmds[ci] == "json-now" {
 		op = Op{Kind: "json", File: "a.klg", Argv: []string{"json", "--now", "$FILE:a.klg"}}
+	} else if c17Cmds[ci] == "today-now" {
+		op = Op{Kind: "today", File: "a.klg", Argv: []string{"today", "--now", "--decimal", "--no-style", "$FILE:a.klg"}}
 	} else if c17Cmds[ci] == "total-now" {
 		op = Op{Kind: "total", File: "a.klg", Argv: []string{"total", "--now", "--decimal", "--no-style", "$FILE:a.klg"}}
 	} else {
